@@ -78,6 +78,9 @@ FIXED = [
      [('C08', 'starred_subscript_tuple_39', {'source': 'x[(*a,)]\ndel x[(*a, b)]\n', 'opts': OFF, 'interp': '3.9'}), ('C02', 'starred_subscript_tuple_39', {'source': 'x[(*a,)]\n', 'interp': '3.10'})]),
     ('7a1b764', ['C08', 'C02'], "augmented assignment of a starred tuple ('x += (*a,)') was printed 'x+=*a,', a syntax error before Python 3.9 (UnstableMinification)",
      [('C08', 'starred_augassign_38', {'source': 'x += (*a, b)\n', 'opts': OFF, 'interp': '3.8'}), ('C02', 'starred_augassign_38', {'source': 'x += (*a,)\n', 'interp': '3.6'})]),
+    ('7fe9283', ['C01', 'C06'], "remove_pass / remove_asserts / remove_debug removed every statement in front of a string statement at the start of a body, which then became the docstring (\"def f(): pass; 'a'\" -> \"def f():'a'\", __doc__ 'a' instead of None)",
+     [('C01', 'string_statement_becomes_docstring', {'source': "def f():\n    pass\n    'a'\n    pass\nclass K:\n    pass\n    'b'\nprint(repr(f.__doc__), repr(K.__doc__))\n", 'opts': o(OFF, remove_pass=True)}),
+      ('C06', 'string_statement_becomes_docstring', {'source': "def alpha_value(*, alpha_value: 'a'=alpha_value):\n    pass\n    'a'\n    pass\n", 'opts': D})]),
 ]
 
 
